@@ -31,8 +31,9 @@
 #if VERIF_RICH
 #undef myth_make_context_empty
 #undef myth_make_context_voidcall
-static inline void myth_make_context_empty(myth_context_t ctx, void *stack, size_t stacksize);
-static inline void myth_make_context_voidcall(myth_context_t ctx, void_func_t func, void *stack, size_t stacksize);
+void verif_m_make_context(myth_context_t ctx, int kind, void *func, void *stack);
+static inline void myth_make_context_empty(myth_context_t ctx, void *stack, size_t stacksize){ (void)stacksize; verif_m_make_context(ctx, 1, 0, stack); }
+static inline void myth_make_context_voidcall(myth_context_t ctx, void_func_t func, void *stack, size_t stacksize){ (void)stacksize; verif_m_make_context(ctx, 2, (void*)func, stack); }
 #endif
 #undef myth_swap_context_withcall
 #undef myth_swap_context
@@ -70,8 +71,9 @@ static inline int verif_tid_of_th(void *th);
 /* ---- run queue: ghost, replaces src/myth_wsqueue_func.h (verified on its own in C02) ---- */
 #define MYTH_WSQUEUE_FUNC_H_
 #include "myth_wsqueue.h"
-static inline void verif_make_runnable(void *q, struct myth_thread *th);
-static inline struct myth_thread *verif_pop(void *q);
+void verif_make_runnable(void *q, struct myth_thread *th);
+struct myth_thread *verif_pop(void *q);
+void verif_m_save(int me); void verif_m_leave_stack(int me); void verif_m_child_start(int k);
 static inline void myth_queue_init(myth_thread_queue_t q){ (void)q; }
 static inline void myth_queue_fini(myth_thread_queue_t q){ (void)q; }
 static inline void myth_queue_clear(myth_thread_queue_t q){ (void)q; }
@@ -85,10 +87,10 @@ static inline int myth_queue_is_operating(myth_thread_queue_t q){ (void)q; retur
 static inline struct myth_thread* myth_queue_peek(myth_thread_queue_t q){ (void)q; return 0; }
 
 /* ---- context switch macros ---- */
-static inline void verif_switch_to(myth_context_t to, int me);
-static inline void verif_after_resume(int me);
+void verif_switch_to(myth_context_t to, int me);
+void verif_after_resume(int me);
 static inline int verif_is_create_cb(void *fn);
-static inline void verif_spawn(myth_context_t to, int me, void *a1, void *a2, void *a3);
+void verif_spawn(myth_context_t to, int me, void *a1, void *a2, void *a3);
 #if VERIF_RICH
 #define VERIF_PARK_FLAG(k) (&verif_go[k])
 #else
@@ -97,9 +99,7 @@ static inline void verif_spawn(myth_context_t to, int me, void *a1, void *a2, vo
 
 #define myth_swap_context_withcall(from,to,fn,a1,a2,a3) do { \
     int me_ = verif_tid_of_ctx(from); \
-    verif_check(!verif_ctx_saved[me_], "model: a context is saved only while its thread runs"); \
-    verif_ctx_saved[me_] = 1; \
-    verif_on_own_stack[me_] = 0; \
+    verif_m_save(me_); \
     if (verif_is_create_cb((void*)(fn))) { \
       verif_spawn((to), me_, (void*)(a1), (void*)(a2), (void*)(a3)); \
     } else { \
@@ -111,15 +111,14 @@ static inline void verif_spawn(myth_context_t to, int me, void *a1, void *a2, vo
   } while (0)
 #define myth_swap_context(from,to) do { \
     int me_ = verif_tid_of_ctx(from); \
-    verif_ctx_saved[me_] = 1; \
-    verif_on_own_stack[me_] = 0; \
+    verif_m_save(me_); \
     verif_switch_to((to), me_); \
     verif_park(VERIF_PARK_FLAG(me_)); \
     verif_after_resume(me_); \
   } while (0)
 #define myth_set_context(to) do { verif_switch_to((to), verif_cur_tid()); verif_stop(); } while (0)
 #define myth_set_context_withcall(to,fn,a1,a2,a3) do { \
-    verif_on_own_stack[verif_cur_tid()] = 0; \
+    verif_m_leave_stack(verif_cur_tid()); \
     fn((void*)(a1),(void*)(a2),(void*)(a3)); \
     verif_switch_to((to), verif_cur_tid()); \
     verif_stop(); \
